@@ -32,6 +32,7 @@ impl<I: Iterator> Iterator for Hinted<I> {
 
 struct Stats {
    calls: u64,
+   nonempty_inputs: u64,
    viol: Vec<(String, String)>,
 }
 impl Stats {
@@ -43,6 +44,9 @@ impl Stats {
 }
 
 fn check_multiset(data: &[i32], ps: &[f64], st: &mut Stats) {
+   if !data.is_empty() {
+      st.nonempty_inputs += 1;
+   }
    let mut sorted = data.to_vec();
    sorted.sort();
    macro_rules! guarded {
@@ -126,7 +130,7 @@ fn main() {
    let nrandom = arg("random", 2000);
    let maxlen = arg("exhaustive_len", 5) as usize;
    let mut rng = Rng::new(seed);
-   let mut st = Stats { calls: 0, viol: vec![] };
+   let mut st = Stats { calls: 0, nonempty_inputs: 0, viol: vec![] };
    let ps = [0.0, 1.0, 25.0, 50.0, 75.0, 99.0, 99.999, 100.0];
    // all sequences (hence all multisets, in all orders) of length 0..=maxlen over {-2..2}
    let vals = [-2, -1, 0, 1, 2];
@@ -188,7 +192,7 @@ fn main() {
          }
       }
    }
-   println!("{{\"inputs\":{},\"exhaustive_inputs\":{},\"percentile_rank_sweep\":{},\"calls\":{},\"violations\":{}}}", multisets, exhaustive, sweep, st.calls, st.viol.len());
+   println!("{{\"inputs\":{},\"nonempty_distinct_inputs\":{},\"exhaustive_inputs\":{},\"percentile_rank_sweep\":{},\"calls\":{},\"violations\":{}}}", multisets, st.nonempty_inputs, exhaustive, sweep, st.calls, st.viol.len());
    for (l, w) in &st.viol {
       println!("{{\"violation\":true,\"what\":\"{}\",\"witness\":\"{}\"}}", l, json_escape(w));
    }
